@@ -32,8 +32,10 @@ enum Where {
     RestartStage(usize),
     /// the module shuts itself down (no panic) at its 2nd message and panics in at_sim_end
     EndAfterShutdown,
+    /// two tasks registered with try_join: one that finishes at once, then one that panics at 2 s
+    TryJoinPair,
 }
-const PLACES: [Where; 14] = [Where::None, Where::Start(0), Where::Start(1), Where::Msg(1), Where::Msg(2), Where::Msg(3), Where::Msg(5), Where::End, Where::Task, Where::TaskThenShutdown, Where::TaskThenRestart, Where::RestartStage(0), Where::RestartStage(1), Where::EndAfterShutdown];
+const PLACES: [Where; 15] = [Where::None, Where::Start(0), Where::Start(1), Where::Msg(1), Where::Msg(2), Where::Msg(3), Where::Msg(5), Where::End, Where::Task, Where::TaskThenShutdown, Where::TaskThenRestart, Where::RestartStage(0), Where::RestartStage(1), Where::EndAfterShutdown, Where::TryJoinPair];
 
 struct P {
     log: Log,
@@ -91,6 +93,15 @@ impl Module for P {
             } else {
                 panic!("boom")
             }
+        }
+        if st == 1 && self.fault == Where::TryJoinPair {
+            let sv = self.silent_variant;
+            current().try_join(tokio::spawn(async {}));
+            current().try_join(tokio::spawn(async move {
+                des::time::sleep(Duration::from_secs(2)).await;
+                assert!(sv, "taskboom");
+            }));
+            current().try_join(tokio::spawn(std::future::pending::<()>()));
         }
         if st == 1 && matches!(self.fault, Where::Task | Where::TaskThenShutdown | Where::TaskThenRestart) && !self.went_down {
             let sv = self.silent_variant;
@@ -242,7 +253,7 @@ fn check(c: &Case, clean: &[String]) -> Result<u64, String> {
     }
     // the faulty module itself: nothing after the panic (messages, wake-ups); tear-down excluded
     for (name, w) in [("f", c.f), ("g", c.g), ("h", c.h)] {
-        if matches!(w, Where::None | Where::Task | Where::End | Where::EndAfterShutdown | Where::TaskThenShutdown | Where::TaskThenRestart) {
+        if matches!(w, Where::None | Where::Task | Where::TryJoinPair | Where::End | Where::EndAfterShutdown | Where::TaskThenShutdown | Where::TaskThenRestart) {
             continue;
         }
         // tear-down is not a message or wake-up: the log is cut where tear-down begins (module a's at_sim_end runs first)
@@ -261,7 +272,7 @@ fn check(c: &Case, clean: &[String]) -> Result<u64, String> {
     for (name, w, catching) in [("f", c.f, c.cf), ("g", c.g, c.cg), ("h", c.h, c.ch)] {
         match w {
             Where::None => {}
-            Where::Task | Where::TaskThenShutdown | Where::TaskThenRestart => {
+            Where::Task | Where::TryJoinPair | Where::TaskThenShutdown | Where::TaskThenRestart => {
                 if catching {
                     may.push(name.into());
                 } else {
@@ -476,7 +487,7 @@ impl Property for C13 {
                                 Where::RestartStage(_) => ctx.hit("fault_in_start_stage_of_a_restart"),
                                 Where::End => ctx.hit("fault_in_teardown"),
                                 Where::EndAfterShutdown => ctx.hit("fault_in_teardown_of_a_shut_down_module"),
-                                Where::Task => ctx.hit("fault_in_joined_task"),
+                                Where::Task | Where::TryJoinPair => ctx.hit("fault_in_joined_task"),
                                 Where::TaskThenShutdown | Where::TaskThenRestart => ctx.hit("joined_task_panic_then_shutdown_of_the_module"),
                                 Where::Msg(_) => ctx.hit("fault_in_nth_message"),
                                 Where::None => {}
